@@ -12,7 +12,7 @@ From Martian Require Import Lib.Bytes Json.Json K.PostProcess Proofs.PostProcess
    changes except that the directories on the way to the destination exist. *)
 Theorem C13_file_leaf_materialised_partial : forall ps outrel fname fp n s,
   let outp := (ps ++ outrel) ++ [fname] in
-  fp <> [] -> clean_path fp ->
+  fp <> [] -> clean_path fp -> through_link s fp = false ->
   lk s fp = Some n -> (forall t, n <> NLink t) ->
   inside ps fp = true ->
   is_pfx fp outp = false -> is_pfx outp fp = false ->
@@ -34,7 +34,7 @@ Example C13_file_leaf_materialised_nonvacuous :
   let ps := [bs "R"; bs "ps"] in
   let fp := [bs "R"; bs "ps"; bs "w"; bs "f1"] in
   let s := init_st [(fp, NFile (bs "content"))] in
-  fp <> [] /\ clean_path fp /\ lk s fp = Some (NFile (bs "content")) /\
+  fp <> [] /\ clean_path fp /\ through_link s fp = false /\ lk s fp = Some (NFile (bs "content")) /\
   inside ps fp = true /\ dirs_free ps [bs "outs"; bs "x"] s /\
   move_val ps (TFile (Some (bs "txt"))) (bs "a") [] [bs "outs"; bs "x"] (JStr (render fp)) s
   = move_file ps [bs "outs"; bs "x"] (bs "a.txt") (JStr (render fp)) s /\
@@ -49,7 +49,7 @@ Proof. exact move_val_null_lemma. Qed.
 Print Assumptions C13_null_stays_null.
 
 Theorem C13_missing_file_to_null : forall ps outrel fname fp s,
-  fp <> [] -> clean_path fp -> lk s fp = None ->
+  fp <> [] -> clean_path fp -> through_link s fp = false -> lk s fp = None ->
   lk s ((ps ++ outrel) ++ [fname]) = None ->
   move_file ps outrel fname (JStr (render fp)) s = (JNull, s).
 Proof. exact move_file_missing_lemma. Qed.
@@ -57,7 +57,7 @@ Print Assumptions C13_missing_file_to_null.
 
 Example C13_missing_file_nonvacuous :
   let fp := [bs "R"; bs "ps"; bs "w"; bs "gone"] in
-  fp <> [] /\ clean_path fp /\ lk (init_st []) fp = None /\
+  fp <> [] /\ clean_path fp /\ through_link (init_st []) fp = false /\ lk (init_st []) fp = None /\
   lk (init_st []) (([bs "R"; bs "ps"] ++ [bs "outs"]) ++ [bs "gone"]) = None.
 Proof. vm_compute. repeat split; try reflexivity; discriminate. Qed.
 
@@ -66,7 +66,7 @@ Proof. vm_compute. repeat split; try reflexivity; discriminate. Qed.
    link back is made and the rewritten value names the place under outs/
    (without this the restarted pipestance reported null for that output) *)
 Theorem C13_interrupted_move_resumed : forall ps outrel fname fp s n,
-  fp <> [] -> clean_path fp -> lk s fp = None ->
+  fp <> [] -> clean_path fp -> through_link s fp = false -> lk s fp = None ->
   lk s ((ps ++ outrel) ++ [fname]) = Some n ->
   lk s (dirname fp) = Some NDir ->
   let outp := (ps ++ outrel) ++ [fname] in
